@@ -169,6 +169,39 @@ class State:
                 break
         if not pinned and not force:
             return None
+        if force:
+            # cheap first: a solver that sees only the small conjuncts of the path condition (the big ones carry
+            # sequence facts that can make a check slow), asked about each integer literal they mention
+            small, cands = [], []
+
+            def numerals(t, depth=0):
+                if z3.is_int_value(t):
+                    v_ = t.as_long()
+                    if v_ not in cands:
+                        cands.append(v_)
+                elif depth < 12:
+                    for ch in t.children():
+                        numerals(ch, depth + 1)
+            for c in self.pc:
+                cs = [c]
+                while cs:
+                    c_ = cs.pop()
+                    if z3.is_and(c_):
+                        cs.extend(c_.children())
+                    elif len(c_.sexpr()) < 1500:
+                        small.append(c_)
+                        numerals(c_)
+            if small and cands:
+                s_ = z3.Solver()
+                s_.set('timeout', 2000)
+                s_.add(*small)
+                for k_ in sorted(cands, key=lambda v_: (v_ < 0, v_ > 255, v_ < 2))[:80]:
+                    s_.push()
+                    s_.add(e != k_)
+                    r_ = guarded_check(s_, 2000)
+                    s_.pop()
+                    if r_ == z3.unsat:
+                        return k_
         cache = self.ghost.setdefault('unique_cache', {})
         key = (e.get_id(), len(self.pc))
         if key in cache:
